@@ -80,6 +80,23 @@ def ensure_makefile():
         run(["coq_makefile", "-f", "_CoqProject", "-o", "Makefile"], 120, cwd=COQ, check=True)
 
 
+class proof_lock:
+    """Serialises everything that writes into coq/ (translator output, make) across concurrently
+    running checks: two `make`s in one directory race on the .vo files."""
+    def __enter__(self):
+        import fcntl
+        os.makedirs(os.path.join(ROOT, ".cache"), exist_ok=True)
+        self.f = open(os.path.join(ROOT, ".cache", "proof.lock"), "w")
+        fcntl.flock(self.f, fcntl.LOCK_EX)
+        return self
+
+    def __exit__(self, *a):
+        import fcntl
+        fcntl.flock(self.f, fcntl.LOCK_UN)
+        self.f.close()
+        return False
+
+
 def make_targets(targets, timeout=1500):
     """Full .vo build of exactly the files asked for. Returns (ok, output)."""
     ensure_makefile()
